@@ -2,15 +2,17 @@
 (A) CDC.tla: per node applied / in-channel / batcher / FIFO (key -> groups) / highest key / cursor /
     taken / hwm / snapshot index, cluster leader set, endpoint, delivered set; actions shaped like the
     code (Apply, Ingest with the hwm filter, Flush keyed by the highest label and dropped at or below the
-    highest key ever, Take / SendOK / Gain / Lose, Broadcast, LeaderPrune, FollowerRecv, SnapshotSync,
+    highest key ever, leadership signals queued for the main loop (Signal, MainHandle), the leader loop as a process of its own
+    (LoopExit = stop check, TakeParked, Take, SendOK), Broadcast, LeaderPrune, FollowerRecv, SnapshotSync,
     Restart, endpoint down/up).  Invariants Labelled, NoSkip (the high-water mark never passes an
     undelivered change), TenureOrder, structural ones; liveness under fairness on small configurations.
-    Ten mechanism switches, each with a negative control TLC must refute (plus a liveness one).
+    Eleven mechanism switches, each with a negative control TLC must refute (plus a liveness one).
 (C) N real cdc.Service instances (real batcher, bbolt FIFO, HTTP sink) over a scripted cdc.Cluster, fed
     by real databases through the real db.CDCStreamer hooks reset per log entry, a recording endpoint
     that can refuse: directed witnesses of every negative control and seeded random histories
     (single / multi-statement requests with and without transactions, explicit BEGIN..COMMIT, failing
-    statements, filtered tables, leadership flips during retries, outages, delayed HWM updates,
+    statements, filtered tables, leadership flips during retries, bursts of 1..20 back-to-back leadership signals in every state
+    (leader loops held at a gate before their first stop check), outages, delayed HWM updates,
     snapshots, restarts).  Every hook event is consumed by TraceCDC.tla, which follows what the code did
     and evaluates Labelled / TenureOrder at every accepted payload, NoSkip at every hwm change,
     completeness at quiescence (with the reason a group left the pipeline), and the mechanism rules.
@@ -126,10 +128,13 @@ def make_key(rows):
 
 
 def run(ctx):
-    design(ctx)
     tr = os.path.join(ctx.scratch, "cdc.ndjson")
     res = os.path.join(ctx.scratch, "cdc-results.json")
-    p = ctx.run_harness(["cdc-trace", "-out", tr, "-results", res, "-runs", str(ctx.pick(14, 220)), "-dir", ctx.sub("cdc")], timeout=3000)
+    ctx.harness()
+    with ThreadPoolExecutor(max_workers=1) as hx:       # the driver runs while TLC checks the design
+        fut = hx.submit(ctx.run_harness, ["cdc-trace", "-out", tr, "-results", res, "-runs", str(ctx.pick(14, 220)), "-dir", ctx.sub("cdc")], timeout=3000)
+        design(ctx)
+        p = fut.result()
     st = json.loads(p.stdout.strip().splitlines()[-1])
     ctx.cov["driver"] = st
     results = json.load(open(res))
